@@ -32,6 +32,8 @@ type Program struct {
 	mutFields  map[string]bool
 	aliasCache map[string]string
 	vta        *callgraph.Graph
+	tabCache   map[*ssa.Global]*constTab
+	tabMutable map[*ssa.Global]bool
 }
 
 // MutableGlobal: is the package-level variable (named "<pkg>.<name>") stored
